@@ -127,6 +127,35 @@ def needs_contract(lines, line, newfns):
     return None
 
 
+def weaken_failed_invariants(lines, errors, inr):
+    """Third proof attempt for functions whose code changed: every loop-invariant conjunct of the proof script (an
+    annotation, never code) that Verus reports as not established / not preserved there is replaced by `true`.  A weaker
+    invariant that still lets every obligation through is a proof; if the body needed the dropped fact, an obligation
+    of the code fails instead and is reported as before.  Returns (new_lines, number_of_conjuncts_dropped)."""
+    per_line = {}
+    for e in errors:
+        if e['kind'] != 'invariant' or 'annot' not in e['clause_tags'] or 'code' in e['clause_tags'] or 'new' in e['clause_tags']:
+            continue
+        if not inr(e['site_line']) or not inr(e['clause_line']):
+            continue
+        ln, c0, c1 = e['clause_line'], e.get('clause_col'), e.get('clause_col_end')
+        if not c0 or not c1 or e.get('clause_line_end') != ln or c1 <= c0:
+            continue
+        per_line.setdefault(ln, set()).add((c0, c1))
+    out = list(lines)
+    n = 0
+    for ln, spans in per_line.items():
+        l = out[ln - 1]
+        for (c0, c1) in sorted(spans, reverse=True):
+            seg = l[c0 - 1:c1 - 1]
+            if not seg.strip() or seg.strip() == 'true' or ',' in seg and seg.count('(') != seg.count(')'):
+                continue
+            l = l[:c0 - 1] + 'true' + ' ' * max(0, len(seg) - 4) + l[c1 - 1:]
+            n += 1
+        out[ln - 1] = l
+    return out, n
+
+
 def fn_changed(lines, regions, line):
     """does the function enclosing `line` contain tokens that differ from the pinned extraction?"""
     rg = fn_range(lines, line)
@@ -163,8 +192,9 @@ def verus_name_selected(select, bname, vname):
             # nested inline modules (vector::x86sse2) are part of the module for matching purposes
             fn = rest[-1]
             ty = rest[-2] if len(rest) >= 2 else None
-            if selected(select, m, ty, fn) or selected(select, '::'.join(segs[:-1]), None, fn):
-                return True
+            # the LONGEST module prefix is the function's module: do not fall through to a parent module (a selection
+            # of `arch::all` must not pull in `arch::all::memchr::One::find_raw`)
+            return selected(select, m, ty, fn) or selected(select, '::'.join(segs[:-1]), None, fn)
     return False
 
 
@@ -292,43 +322,122 @@ def decide_build(pid, spec, b, tier, oc, seed):
     if r.json is None:
         oc.undecided.append('verus produced no result for build %s (exit %s): %s' % (bname, r.returncode, r.raw_stderr[-400:]))
         return
+    hint_dropped = set()      # (first, last) line ranges of functions that lost proof hints in the repair below
+    if changed and a['hard_errors']:
+        # Verus rejects the unit woven for the CHANGED tree.  Often the cause is a proof hint of the template (a
+        # `proof { }` block or an `assert` statement) that no longer fits the code around it: it mentions a variable that
+        # is gone, or it was transplanted into the middle of a rewritten expression.  Hints are optional for soundness,
+        # so leave out the hint at (or right next to) each rejected position and try again, a few rounds.  The repaired
+        # unit is used only to reach OK: obligations that stay undischarged in a function that lost hints are reported as
+        # undecided (with the replayer cross-check), never as a violation.
+        drop = {}
+        cur_regions, cur_a = regions, a
+        adopted = None
+        for rnd in range(10):
+            progressed = False
+            for h in cur_a['hard_errors'][:6]:
+                for (rs, re_, kind, name, w) in cur_regions:
+                    if kind != 'part' or w is None or not (rs <= h['line'] <= re_):
+                        continue
+                    local = h['line'] - rs
+                    have = drop.get(name, set())
+                    cover = [k for (k, a0, b0) in w.hint_items if a0 <= local <= b0 and k not in have]
+                    if not cover:
+                        near = sorted((min(abs(local - b0), abs(a0 - local)), k) for (k, a0, b0) in w.hint_items if k not in have)
+                        cover = [near[0][1]] if near and near[0][0] <= 2 else []
+                    if cover:
+                        drop.setdefault(name, set()).add(cover[0])
+                        progressed = True
+            if not progressed:
+                break
+            try:
+                text2, regions2, infos2 = gen.gen_build(bname, drop_hints=drop)
+            except gen.GenError:
+                break
+            path2 = os.path.join(WORK, '%s_%s_nohint.rs' % (pid, bname))
+            open(path2, 'w').write(text2)
+            r2 = vrun.run_verus(path2, modules=mods, threads=int(os.environ.get('VERIF_THREADS', '4')), extra=xtra, rlimit=40)
+            a2 = vrun.analyse(text2, regions2, r2)
+            if r2.json is None:
+                break
+            cur_regions, cur_a = regions2, a2
+            if not a2['hard_errors']:
+                adopted = (text2, regions2, path2, r2, a2)
+                break
+        if adopted:
+            text, regions, path, r, a = adopted
+            lines = text.split('\n')
+            ndrop = sum(len(v) for v in drop.values())
+            for (rs, re_, kind, name, w) in regions:
+                if kind == 'part' and w is not None and name in drop:
+                    for (k, a0, b0) in w.hint_items:
+                        if k in drop[name]:
+                            rg = fn_range(lines, rs + a0)
+                            if rg:
+                                hint_dropped.add(rg)
+            oc.notes.append('%s: verus rejected the unit woven for the changed tree; accepted after leaving out %d proof hint(s) of the '
+                            'template that no longer fit (%s)' % (bname, ndrop, ', '.join('%s:%s' % (k, sorted(v)) for k, v in drop.items())))
+            oc.cmds.append(r.cmd)
     if changed and a['errors'] and not a['hard_errors']:
-        # a function whose code changed fails an obligation: before reporting, try the one sound repair of the proof
-        # script that needs no new annotation (see relax_loop_isolation)
+        # a function whose code changed fails an obligation: before reporting, try the sound repairs of the proof
+        # script that need no new annotation: (1) loop_isolation(false) on the loops of those functions, (2) dropping
+        # the invariant conjuncts of the proof script that fail there (up to three rounds).  Every attempt is a full
+        # Verus run on a text that differs from the first only in annotations of those functions; per function, the
+        # changed functions are judged by the last attempt that improved them, all others by the first run.
         ranges = set()
         for e in a['errors']:
             rg = fn_range(lines, e['site_line'])
             if rg and fn_changed(lines, regions, e['site_line']):
                 ranges.add(rg)
+        inr = lambda ln: any(fl <= ln <= end for (fl, end) in ranges)
+        c1 = os.path.basename(path)[:-3]
+
+        def attempt(vlines, tag, what):
+            """run the variant; merge per function; returns (improved, variant_analysis)"""
+            nonlocal a
+            vtext = '\n'.join(vlines)
+            vpath = os.path.join(WORK, '%s_%s_%s.rs' % (pid, bname, tag))
+            open(vpath, 'w').write(vtext)
+            rv = vrun.run_verus(vpath, modules=mods, threads=int(os.environ.get('VERIF_THREADS', '4')), extra=xtra, rlimit=40)
+            av = vrun.analyse(vtext, regions, rv)
+            if rv.json is None or av['hard_errors']:
+                return False, None
+            errs = [e for e in a['errors'] if not inr(e['site_line'])] + [e for e in av['errors'] if inr(e['site_line'])]
+            if len(errs) >= len(a['errors']):
+                return False, av
+            c2 = os.path.basename(vpath)[:-3]
+            funcs = dict(a['functions'])
+            for (fl, end) in ranges:
+                ty, fn = fn_qual(lines, fl)
+                part = gen.locate(regions, fl)[1]
+                module = mod_of_part(part) if part in units.PARTS else None
+                suffix = '::' + ((ty + '::') if ty else '') + (fn or '?')
+                for k2, v2 in av['functions'].items():
+                    k1 = c1 + k2[len(c2):]
+                    if k2.endswith(suffix) and module and ('::' + module + '::') in k2 and k1 in funcs:
+                        funcs[k1] = v2
+            oc.notes.append('%s: %d obligation(s) failed in changed functions; %s left %d' % (bname, len(a['errors']), what, len(errs)))
+            a = dict(a, errors=errs, functions=funcs)
+            oc.cmds.append(rv.cmd)
+            return True, av
+
+        cur = lines
         lines2, n_iso = relax_loop_isolation(lines, sorted(ranges)) if ranges else (lines, 0)
+        last_av = a
         if n_iso:
-            text2 = '\n'.join(lines2)
-            path2 = os.path.join(WORK, '%s_%s_iso.rs' % (pid, bname))
-            open(path2, 'w').write(text2)
-            r2 = vrun.run_verus(path2, modules=mods, threads=int(os.environ.get('VERIF_THREADS', '4')), extra=xtra, rlimit=40)
-            a2 = vrun.analyse(text2, regions, r2)
-            if r2.json is not None and not a2['hard_errors']:
-                # per function: the relaxed functions are judged by the second run, every other function (whose text is
-                # identical in both files) by the first
-                inr = lambda ln: any(fl <= ln <= end for (fl, end) in ranges)
-                errs = [e for e in a['errors'] if not inr(e['site_line'])] + [e for e in a2['errors'] if inr(e['site_line'])]
-                if len(errs) < len(a['errors']):
-                    c1, c2 = os.path.basename(path)[:-3], os.path.basename(path2)[:-3]
-                    funcs = dict(a['functions'])
-                    for (fl, end) in ranges:
-                        ty, fn = fn_qual(lines, fl)
-                        part = gen.locate(regions, fl)[1]
-                        module = mod_of_part(part) if part in units.PARTS else None
-                        suffix = '::' + ((ty + '::') if ty else '') + (fn or '?')
-                        for k2, v2 in a2['functions'].items():
-                            k1 = c1 + k2[len(c2):]
-                            if k2.endswith(suffix) and module and ('::' + module + '::') in k2 and k1 in funcs:
-                                funcs[k1] = v2
-                    oc.notes.append('%s: %d obligation(s) of changed functions failed with isolated loops; second attempt with '
-                                    'loop_isolation(false) on %d loop(s) of those functions left %d'
-                                    % (bname, len(a['errors']), n_iso, len(errs)))
-                    a = dict(a, errors=errs, functions=funcs)
-                    oc.cmds.append(r2.cmd)
+            ok2, av = attempt(lines2, 'iso', 'second attempt with loop_isolation(false) on %d loop(s) of those functions' % n_iso)
+            if av is not None:
+                cur, last_av = lines2, av      # keep the relaxed loops for the next attempts even if they did not help alone
+        for rnd in range(3):
+            if not any(inr(e['site_line']) for e in a['errors']):
+                break
+            cur2, n_drop = weaken_failed_invariants(cur, [e for e in last_av['errors'] if inr(e['site_line'])], inr)
+            if not n_drop:
+                break
+            ok3, av = attempt(cur2, 'inv%d' % rnd, 'attempt with %d failing invariant conjunct(s) of the proof script dropped' % n_drop)
+            if av is None:
+                break
+            cur, last_av = cur2, av
     sel = b['select']
     # ---- hard (compile / unsupported) errors: nothing was verified
     if a['hard_errors']:
@@ -376,6 +485,10 @@ def decide_build(pid, spec, b, tier, oc, seed):
         k = e['kind']
         if k == 'rlimit':
             oc.undecided.append('%s: resource limit in %s::%s' % (bname, module, e['qual']))
+            continue
+        if any(fl <= e['site_line'] <= end for (fl, end) in hint_dropped):
+            oc.undecided.append('%s: proof-script mismatch: %s::%s lost proof hints that no longer fit its changed code and a %s obligation '
+                                'at `%s` stays undischarged' % (bname, module, e['qual'], k, e['site_text'][:60]))
             continue
         nc = needs_contract(lines, e['site_line'], newfns)
         if nc:
